@@ -7,8 +7,11 @@ most once). Tie: thresholds translator + correspondence stream `gov-votes` (real
 signature_manager.AddSignature on a real CacheDB, N = 1..13, repeat voters, outsiders, missing witnesses, validator-set
 changes through quit / candidate approval / commitDpos in between); the harness evaluates the property with its own
 bookkeeping of the distinct current validators that voted.
-Not covered: consensus_vote.VoteHandler.MakeDepositProposal and ripple_handler glue around CheckVotes (id derivation,
-done-tx bookkeeping) — exercised by the cross-chain checks, not here.
+The vote handler glue (consensus_vote.VoteHandler.MakeDepositProposal: witness, vote id, release, payload decoding,
+done-transaction guard with revert) is run on the real code in the same stream (`deposit` ops) and modelled; the vote
+id (SHA-256 of the unique EntranceParam) and the cross chain id inside the payload are oracle values of the op line,
+checked by the harness. ripple_handler.MakeDepositProposal calls the same CheckVotes with the same id derivation; its
+asset-binding continuation belongs to the cross-chain checks.
 """
 from checks import gov_common
 
